@@ -428,7 +428,7 @@ func init() {
 // direct os.WriteFile/Create/OpenFile/Rename whose arguments mention OutsFile.
 // Per site, in (file, position) order:
 //
-//	(site, method, atomic, next)
+//	(site, method, atomic, next, before)
 //
 // site   = "<dir>/<file>:<Recv.>Func"
 // atomic = derived from the BODY of M (metadata.go, write_atomic_linux.go, by
@@ -439,10 +439,14 @@ func init() {
 //          function, that publishes the record or starts the job that
 //          overwrites it: WriteTime(<marker>), UpdateJournal(OutsFile),
 //          runChunk, runJoin, skip; "" when there is none.
+// before = the last such call that DEFINITELY precedes the write: earlier in the
+//          source and in a block that encloses the write (same block or an
+//          ancestor); "" when there is none.  A write moved behind its
+//          completion marker shows up here.
 func init() {
 	addFact(fact{
 		name:   "allOutsWriters",
-		leanTy: "List (String × String × Bool × String)",
+		leanTy: "List (String × String × Bool × String × String)",
 		deflt:  "[]",
 		extract: func(repo string) (string, interface{}, error) {
 			// 1. the Metadata methods and their reach
@@ -588,7 +592,7 @@ func init() {
 			type site struct {
 				Site, Method string
 				Atomic       bool
-				Next         string
+				Next, Before string
 			}
 			var sites []site
 			for _, rel := range files {
@@ -616,13 +620,36 @@ func init() {
 						method string
 						atomic bool
 						marker string
+						blocks []ast.Node // enclosing blocks / case clauses, outermost first
 					}
 					var evs []ev
+					var stack []ast.Node
+					var blocks []ast.Node
 					ast.Inspect(fd.Body, func(n ast.Node) bool {
+						if n == nil {
+							top := stack[len(stack)-1]
+							stack = stack[:len(stack)-1]
+							switch top.(type) {
+							case *ast.BlockStmt, *ast.CaseClause, *ast.CommClause:
+								blocks = blocks[:len(blocks)-1]
+							}
+							return true
+						}
+						stack = append(stack, n)
+						switch n.(type) {
+						case *ast.BlockStmt, *ast.CaseClause, *ast.CommClause:
+							blocks = append(blocks, n)
+						}
 						call, ok := n.(*ast.CallExpr)
 						if !ok {
 							return true
 						}
+						nb := len(evs)
+						defer func() {
+							for i := nb; i < len(evs); i++ {
+								evs[i].blocks = append([]ast.Node{}, blocks...)
+							}
+						}()
 						sel, ok := call.Fun.(*ast.SelectorExpr)
 						if !ok {
 							if id, ok := call.Fun.(*ast.Ident); ok && id.Name == "skip" {
@@ -658,14 +685,25 @@ func init() {
 						if e.method == "" {
 							continue
 						}
-						next := ""
+						next, before := "", ""
 						for _, l := range evs[i+1:] {
 							if l.marker != "" {
 								next = l.marker
 								break
 							}
 						}
-						sites = append(sites, site{rel + ":" + fname, e.method, e.atomic, next})
+						for _, l := range evs[:i] {
+							if l.marker == "" || len(l.blocks) == 0 {
+								continue
+							}
+							inner := l.blocks[len(l.blocks)-1]
+							for _, b := range e.blocks {
+								if b == inner {
+									before = l.marker
+								}
+							}
+						}
+						sites = append(sites, site{rel + ":" + fname, e.method, e.atomic, next, before})
 					}
 				}
 			}
@@ -674,7 +712,7 @@ func init() {
 			}
 			o := make([]string, len(sites))
 			for i, s := range sites {
-				o[i] = fmt.Sprintf("(%s, %s, %v, %s)", leanStr(s.Site), leanStr(s.Method), s.Atomic, leanStr(s.Next))
+				o[i] = fmt.Sprintf("(%s, %s, %v, %s, %s)", leanStr(s.Site), leanStr(s.Method), s.Atomic, leanStr(s.Next), leanStr(s.Before))
 			}
 			return "[" + joinComma(o) + "]", sites, nil
 		},
